@@ -212,14 +212,8 @@ M("c15-cbf-token-revert", "C15", "flexstack/geonet/router.py",
   "revert: an expired contention timer transmits whatever copy is buffered under its key")
 
 M("c08-ls-keeps-stale-revert", "C08", "flexstack/geonet/location_table.py",
-  "                    if entry._pv_received:  # pylint: disable=protected-access
-                        entry._pv_received = False  # pylint: disable=protected-access
-                        entry.is_neighbour = False
-",
-  "                    if False:
-                        entry._pv_received = False  # pylint: disable=protected-access
-                        entry.is_neighbour = False
-",
+  "                    if entry._pv_received:  # pylint: disable=protected-access\n                        entry._pv_received = False",
+  "                    if False:\n                        entry._pv_received = False",
   "revert: a pending lookup keeps an outdated entry (and neighbour) alive")
 
 # ---------------------------------------------------------------- C09
